@@ -4,6 +4,11 @@ import json, subprocess, sys, os
 HERE = os.path.dirname(os.path.abspath(__file__))
 
 CLAIMED = {
+ "C06": dict(
+   text="Seeded search over what must not matter to a seeded forest: every run fits the same forest twice — twin A under one simulator-owned ambient RNG stream, then other estimators run (history pollution), then twin B on another OS thread under a different stream (seeded, extreme words, or no simulator source at all) — and a prefix of every batch is re-run in a second OS process. Twins must be byte-identical (bincode), equal under the model's own PartialEq, predict identically, and consume zero ambient words (tape log). Aggregation, out-of-bag aggregation over exactly the trees whose bootstrap mask excludes the row, stratification, range and tree-count are judged on the recorded history (serde image of trees[]/samples[], member trees rebuilt and their real predict called).",
+   design_ref="DESIGN.md 5.4",
+   note="Trusts: patched rand 0.8.8 (ThreadRng word source only; StdRng(seed) deliberately untouched), serde/bincode as observation channel. Rows without any out-of-bag tree are not judged. Real: both forests, both trees, StdRng. Stub: ambient ThreadRng entropy.",
+   technique="deterministic simulation: twin fits under perturbed ambient RNG / thread / process / history (fault injection around the seed), recorded-history aggregation oracles vs reference plurality/mean model"),
  "C16": dict(
    text="Seeded search over the schedules the property quantifies over: every permutation KFold/train_test_split can draw is decided by the simulator through the patched ThreadRng seam (all n! orders for n<=5 exhaustively, >1e5 distinct decoded permutations per quick run for n<=64, extreme words at random draw sites), shuffle-off enumerated exhaustively for all 2<=k<=n<=64; leakage is judged from the rows the recording estimator/scorer parties actually receive, as in-run invariants and as a check over the recorded history, also under injected estimator failures. A clean batch is evidence, not proof, for n>5 with shuffling on.",
    design_ref="DESIGN.md 5.1",
@@ -40,7 +45,6 @@ NOT_APPLICABLE = {
  "C20": "Backend equivalence: the same pure functions instantiated at three matrix types; nothing to schedule or fault.",
 }
 PENDING = {
- "C06": "claimed in DESIGN.md 5.4; simulation check under construction in this round (will move to checks when built)",
 }
 
 def main():
